@@ -103,6 +103,12 @@ def handleBuiltin (name : String) (v : Val) : String :=
 partial def decodePTree : Sexp → Option Pratt.Tree
   | .list [.atom "a", .atom n] => n.toNat?.map Pratt.Tree.atom
   | .list [.atom "b", .atom o, l, r] => do pure (.bin o (← decodePTree l) (← decodePTree r))
+  | .list [.atom "u", .atom o, t] => do pure (.un o (← decodePTree t))
+  | .list [.atom "t", c, a, b] => do pure (.tern (← decodePTree c) (← decodePTree a) (← decodePTree b))
+  | .list [.atom "call", f, x] => do pure (.call (← decodePTree f) (← decodePTree x))
+  | .list [.atom "idx", b, i] => do pure (.index (← decodePTree b) (← decodePTree i))
+  | .list [.atom "sl", b, i, j] => do pure (.slice (← decodePTree b) (← decodePTree i) (← decodePTree j))
+  | .list [.atom "mem", b] => do pure (.member (← decodePTree b))
   | _ => none
 
 def showTok : Pratt.Tok → String
@@ -110,6 +116,11 @@ def showTok : Pratt.Tok → String
   | .op o => o
   | .lp => "("
   | .rp => ")"
+  | .q => "?"
+  | .colon => ":"
+  | .lb => "["
+  | .rb => "]"
+  | .dot => ".f"
 
 def opTokName (o : String) : String :=
   match [("!=", "NEQ"), ("==", "EQEQ"), ("= <-", "EQOPCHAN"), ("??", "NILCOALESCE"), ("++", "PLUSPLUS"), ("+=", "PLUSEQ"),
